@@ -28,6 +28,7 @@ import (
 	status_pb "google.golang.org/genproto/googleapis/rpc/status"
 	"google.golang.org/grpc/codes"
 	"google.golang.org/grpc/status"
+	"google.golang.org/protobuf/proto"
 	"google.golang.org/protobuf/types/known/durationpb"
 	"google.golang.org/protobuf/types/known/emptypb"
 )
@@ -53,9 +54,14 @@ type workerSpec struct {
 	MaxCalls  int
 	// What the worker may report while it believes to hold a task
 	// (first entry = default): ok, fail, err, exec, idle, wrong,
-	// okpidle, vanish, sleep<N>.
+	// okpidle, vanish, sleep<N>, and the stale reports resend (the
+	// previous request verbatim, as after a lost response), okprev
+	// (a fresh completion report for the previous assignment), execprev
+	// (still executing the previous assignment). Letters that make no
+	// sense in the current state are left out of the menu.
 	Busy []string
-	// What it may report otherwise: idle, pidle, wrong, vanish, sleep<N>.
+	// What it may report otherwise: idle, pidle, wrong, vanish, sleep<N>,
+	// resend, okprev, execprev.
 	Idle    []string
 	Cancels int
 }
@@ -284,7 +290,7 @@ func newWorld(x *mc.X, cfg *config) *world {
 	}
 	for i := range cfg.Workers {
 		s := &cfg.Workers[i]
-		add(&actor{name: s.Name, kind: "worker", idx: i, wspec: s, cancelsLeft: s.Cancels, wk: &workerState{}})
+		add(&actor{name: s.Name, kind: "worker", idx: i, wspec: s, cancelsLeft: s.Cancels, wk: &workerState{curFirst: -1, curLast: -1}})
 		w.maxStage = max(w.maxStage, s.Stage)
 	}
 	for i := range cfg.Operators {
@@ -348,6 +354,17 @@ func (a *actor) sleep(n int) {
 	<-ch
 }
 
+// noteClockValue records a clock value handed to this worker's thread
+// (w.mu held): it is what the thread passes to bq.enter() next.
+func (a *actor) noteClockValue(now int) {
+	if wk := a.wk; wk != nil && a.inCall {
+		if wk.curFirst < 0 {
+			wk.curFirst = now
+		}
+		wk.curLast = now
+	}
+}
+
 func (a *actor) beginCall(parent context.Context) *fakeCtx {
 	w := a.w
 	w.mu.Lock()
@@ -364,6 +381,13 @@ func (a *actor) endCall() {
 	w := a.w
 	w.mu.Lock()
 	defer w.mu.Unlock()
+	// A fired timer whose value has been taken out of its (buffered) channel
+	// was received by the call that just returned: the call passed that
+	// value to bq.enter() and returned. (A fired timer whose value is still
+	// in the channel lost against another wake-up and was never looked at.)
+	if t := a.timer; t != nil && t.isFired() && len(t.ch) == 0 {
+		a.noteClockValue(t.firedAt)
+	}
 	a.inCall = false
 	a.timer = nil
 	a.resetOnDone = ""
@@ -441,44 +465,93 @@ type workerState struct {
 	// Number of consecutive requests since the assignment in which the
 	// worker did not claim to run the assigned action.
 	rerequests int
-	// Clock tick at which the last call that has returned was started.
-	lastReturnedCallStart int
-	prevReturnedCallStart int
-	returnedCalls         int
-	callStart             int
+	// The assignment the worker held before the current one (or before it
+	// was told to go idle): what a stale report refers to.
+	prevDigest *remoteexecution.Digest
+	prevTask   int
+	// Contact times (C02/C06 "worker disappeared"), in scheduler time: the
+	// clock values this worker thread obtained (clock.Now() or the value
+	// delivered by its timer) and therefore passed to bq.enter().
+	// curFirst/curLast: first and last value obtained in the call that is
+	// in progress (-1: none yet); lastContact/prevContact: curLast of the
+	// last two calls that have returned; lastCallFirst: curFirst of the
+	// last call that has returned.
+	curFirst, curLast        int
+	lastContact, prevContact int
+	lastCallFirst            int
+	returnedCalls            int
+	callStart                int
 	// in-flight request
 	req        *remoteworker.SynchronizeRequest
 	reqKind    string
 	reqReport  *remoteexecution.ExecuteResponse
+	reqRec     *reportRec
 	reqPreTask int
 	reports    int
+	// previous request (what "resend" sends again verbatim)
+	lastReq  *remoteworker.SynchronizeRequest
+	lastKind string
+	lastRec  *reportRec
+}
+
+// reportRec is one ExecuteResponse produced by a harness worker. It is
+// bound to the task (execution attempt) the worker had been told to run
+// when it produced the report; a verbatim re-send keeps that binding.
+type reportRec struct {
+	worker  string
+	forTask int // harness task id (0: unknown)
+	digest  *remoteexecution.Digest
+	resp    *remoteexecution.ExecuteResponse
 }
 
 func workerID(name string) map[string]string { return map[string]string{"host": name} }
 
 const reportPrefix = "report:"
 
-func (a *actor) makeReport(kind string) *remoteexecution.ExecuteResponse {
+// makeReport produces a fresh ExecuteResponse with a unique marker, bound
+// to the task forTask (digest d) that the worker claims to have run.
+func (a *actor) makeReport(kind string, forTask int, d *remoteexecution.Digest) *reportRec {
 	a.wk.reports++
 	marker := fmt.Sprintf("%s%s#%d", reportPrefix, a.name, a.wk.reports)
+	var r *remoteexecution.ExecuteResponse
 	switch kind {
-	case "ok", "okpidle":
-		return &remoteexecution.ExecuteResponse{
+	case "ok", "okpidle", "okprev":
+		r = &remoteexecution.ExecuteResponse{
 			Result:  &remoteexecution.ActionResult{ExitCode: 0, ExecutionMetadata: &remoteexecution.ExecutedActionMetadata{Worker: a.name, VirtualExecutionDuration: durationpb.New(3 * time.Second)}},
 			Message: marker,
 		}
 	case "fail":
-		return &remoteexecution.ExecuteResponse{
+		r = &remoteexecution.ExecuteResponse{
 			Result:  &remoteexecution.ActionResult{ExitCode: 1, ExecutionMetadata: &remoteexecution.ExecutedActionMetadata{Worker: a.name}},
 			Message: marker,
 		}
 	case "err":
-		return &remoteexecution.ExecuteResponse{
+		r = &remoteexecution.ExecuteResponse{
 			Status:  status.New(codes.DeadlineExceeded, "worker: action timed out").Proto(),
 			Message: marker,
 		}
+	default:
+		panic(kind)
 	}
-	panic(kind)
+	rec := &reportRec{worker: a.name, forTask: forTask, digest: d, resp: r}
+	a.w.mu.Lock()
+	a.w.mon.reportRecs[marker] = rec
+	a.w.mu.Unlock()
+	return rec
+}
+
+// letterAvailable reports whether a menu letter makes sense in the worker's
+// current state: "resend" needs a previous request that carried an
+// Executing state, "okprev"/"execprev" need a previous assignment.
+func (a *actor) letterAvailable(kind string) bool {
+	wk := a.wk
+	switch kind {
+	case "resend":
+		return wk.lastReq != nil && wk.lastReq.GetCurrentState().GetExecuting() != nil
+	case "okprev", "execprev":
+		return wk.prevDigest != nil
+	}
+	return true
 }
 
 var wrongDigest = &remoteexecution.Digest{Hash: strings.Repeat("ab", 32), SizeBytes: 42}
@@ -492,6 +565,15 @@ func (a *actor) runWorker() {
 		menu := spec.Idle
 		if wk.assigned != nil {
 			menu = spec.Busy
+		}
+		if len(menu) > 0 {
+			avail := make([]string, 0, len(menu))
+			for _, k := range menu {
+				if a.letterAvailable(k) {
+					avail = append(avail, k)
+				}
+			}
+			menu = avail
 		}
 		if len(menu) == 0 {
 			if wk.assigned != nil {
@@ -521,8 +603,7 @@ func (a *actor) runWorker() {
 			Platform:           platformOf("linux"),
 			SizeClass:          spec.SizeClass,
 		}
-		var report *remoteexecution.ExecuteResponse
-		claims := false // claims to be running the assigned action
+		var rec *reportRec
 		switch kind {
 		case "idle":
 			req.CurrentState = &remoteworker.CurrentState{WorkerState: &remoteworker.CurrentState_Idle{Idle: &emptypb.Empty{}}}
@@ -535,27 +616,57 @@ func (a *actor) runWorker() {
 				ExecutionState: &remoteworker.CurrentState_Executing_Running{Running: &emptypb.Empty{}},
 			}}}
 		case "exec":
-			claims = true
 			req.CurrentState = &remoteworker.CurrentState{WorkerState: &remoteworker.CurrentState_Executing_{Executing: &remoteworker.CurrentState_Executing{
 				ActionDigest:   wk.assigned,
 				ExecutionState: &remoteworker.CurrentState_Executing_Running{Running: &emptypb.Empty{}},
 			}}}
 		case "ok", "fail", "err", "okpidle":
-			claims = true
-			report = a.makeReport(kind)
+			rec = a.makeReport(kind, wk.assignedTask, wk.assigned)
 			req.CurrentState = &remoteworker.CurrentState{WorkerState: &remoteworker.CurrentState_Executing_{Executing: &remoteworker.CurrentState_Executing{
 				ActionDigest:   wk.assigned,
-				ExecutionState: &remoteworker.CurrentState_Executing_Completed{Completed: report},
+				ExecutionState: &remoteworker.CurrentState_Executing_Completed{Completed: rec.resp},
 			}}}
 			req.PreferBeingIdle = kind == "okpidle"
+		case "okprev":
+			// A (late) completion report for the task the worker ran
+			// before its current assignment.
+			rec = a.makeReport(kind, wk.prevTask, wk.prevDigest)
+			req.CurrentState = &remoteworker.CurrentState{WorkerState: &remoteworker.CurrentState_Executing_{Executing: &remoteworker.CurrentState_Executing{
+				ActionDigest:   wk.prevDigest,
+				ExecutionState: &remoteworker.CurrentState_Executing_Completed{Completed: rec.resp},
+			}}}
+		case "execprev":
+			req.CurrentState = &remoteworker.CurrentState{WorkerState: &remoteworker.CurrentState_Executing_{Executing: &remoteworker.CurrentState_Executing{
+				ActionDigest:   wk.prevDigest,
+				ExecutionState: &remoteworker.CurrentState_Executing_Running{Running: &emptypb.Empty{}},
+			}}}
+		case "resend":
+			// The response to the previous request was "lost": the worker
+			// sends the identical request again (as build_client does after
+			// an RPC error), including the identical ExecuteResponse.
+			req = proto.Clone(wk.lastReq).(*remoteworker.SynchronizeRequest)
+			rec = wk.lastRec
 		default:
 			panic("bad worker request kind " + kind)
 		}
+		var report *remoteexecution.ExecuteResponse
+		if rec != nil {
+			report = rec.resp
+		}
+		// Does the request claim to be running the action that is assigned
+		// according to the last response the worker processed?
+		reqDigest := req.GetCurrentState().GetExecuting().GetActionDigest()
+		claims := reqDigest != nil && wk.assigned != nil && proto.Equal(reqDigest, wk.assigned)
 		ctx := a.beginCall(context.Background())
 		w.mu.Lock()
 		wk.calls++
-		wk.req, wk.reqKind, wk.reqReport = req, kind, report
+		wk.req, wk.reqKind, wk.reqReport, wk.reqRec = req, kind, report, rec
+		wk.lastReq, wk.lastRec = req, rec
+		if kind != "resend" {
+			wk.lastKind = kind
+		}
 		wk.callStart = w.clock.tick()
+		wk.curFirst, wk.curLast = -1, -1
 		if wk.assigned != nil && !claims {
 			wk.rerequests++
 			if ti := w.mon.tasks[wk.assignedTask]; ti != nil && wk.rerequests > ti.maxRerequests {
@@ -583,7 +694,14 @@ func digestShort(d *remoteexecution.Digest) string {
 
 func (a *actor) workerTag() string {
 	wk := a.wk
-	return fmt.Sprintf("%s/%d/%s/%d/%d/%d", a.name, wk.calls, digestShort(wk.assigned), wk.assignedTask, wk.toldCount, wk.rerequests)
+	return fmt.Sprintf("%s/%d/%s/%d/%d/%d/%s/%d/%s/%s", a.name, wk.calls, digestShort(wk.assigned), wk.assignedTask, wk.toldCount, wk.rerequests, digestShort(wk.prevDigest), wk.prevTask, wk.lastKind, wk.lastRec.marker())
+}
+
+func (r *reportRec) marker() string {
+	if r == nil {
+		return "-"
+	}
+	return r.resp.Message
 }
 
 // ---------------------------------------------------------------------------
@@ -749,6 +867,7 @@ func (w *world) addEvents() {
 				w.clock.mu.Lock()
 				t.fired = true
 				now := w.clock.now
+				t.firedAt = now
 				w.clock.mu.Unlock()
 				t.ch <- tickTime(now)
 			},
